@@ -4940,9 +4940,10 @@ impl<'a> Parser<'a> {
             self.advance(); // consume 'asserts'
         }
 
-        // Type predicate: param is Type. This is an identifier or `this` followed by 'is'
+        // Type predicate: param is Type. This is an identifier or `this` followed by 'is' on the
+        // same line (on the next line `is` is the name of the next member: `self(): this\n is(): ..`)
         let has_subject = (self.check_identifier() || self.check(&TokenKind::This))
-            && self.peek_is(&TokenKind::Is);
+            && self.peek_is_on_same_line(&TokenKind::Is);
         if !asserts && !has_subject {
             return Ok(Box::new(self.parse_type_annotation()?));
         }
@@ -5284,6 +5285,15 @@ impl<'a> Parser<'a> {
             TokenKind::Comma | TokenKind::RBrace => false,
             _ => true,
         }
+    }
+
+    /// Check if the next token (after current) is of the given kind and not preceded by a line break
+    fn peek_is_on_same_line(&mut self, kind: &TokenKind) -> bool {
+        let checkpoint = self.lexer.checkpoint();
+        let next = self.lexer.next_token();
+        let same_line = !self.lexer.had_newline_before();
+        self.lexer.restore(checkpoint);
+        same_line && mem::discriminant(&next.kind) == mem::discriminant(kind)
     }
 
     /// Check if the next token (after current) is an identifier
